@@ -1,6 +1,7 @@
 //! Drivers for the system-level properties: C07 (simulator), C11 (system transformations),
 //! C17 (cone of influence).
 mod c07;
+mod c07_bigmem;
 mod c11;
 mod c17;
 mod common;
